@@ -31,6 +31,7 @@ def setup(scale=0.01):
     from nxslib.proto.parse import Parser
     refdev.install_fast_clock(scale)
     chans = refdev.simple_chans(N, typ=7, vdim=1)
+    chans[1]["typ"] = 0x87          # the same data type with the "critical" flag set in the type byte
     dev = refdev.RefDevice(chans, flags=3)
     nx = NxscopeHandler(dev, Parser())
     fin, res = refdev.run_with_watchdog(nx.connect, 20)
@@ -200,6 +201,69 @@ def concurrent(run, rng):
         teardown(nx)
 
 
+def enable_while_streaming(run, rng):
+    """a channel is enabled (written at once) while the stream runs; the device applies the request, sends
+    samples of that channel straight away and acknowledges a little later: the subscriber must get every
+    sample the device sent for the channel, from the first one on"""
+    import sys
+    from nxslib.nxscope import NxscopeHandler
+    from nxslib.proto.parse import Parser
+    refdev.install_fast_clock(0.02)
+
+    class Dev(refdev.RefDevice):
+        burst = 0
+
+        def _request(self, fid, payload):
+            before = self.en()
+            super()._request(fid, payload)
+            after = self.en()
+            if fid == rc.ID_ENABLE and after != before:
+                for c in range(len(after)):
+                    if after[c] and not before[c]:
+                        for k in range(1, 6):
+                            Dev.burst += 1
+                            self.push(frame(0, [(c, 1000 * Dev.burst + k), (c, 1000 * Dev.burst + k + 500)]))
+                            self.sent.setdefault(c, []).append([1000 * Dev.burst + k, 1000 * Dev.burst + k + 500])
+
+    chans = refdev.simple_chans(N, typ=7, vdim=1)
+    dev = Dev(chans, flags=3, ack_delay=0.006)
+    dev.sent = {}
+    nx = NxscopeHandler(dev, Parser())
+    old = sys.getswitchinterval()
+    sys.setswitchinterval(1e-5)
+    try:
+        fin, res = refdev.run_with_watchdog(nx.connect, 20)
+        assert fin and not isinstance(res, BaseException), res
+        nx.stream_start()
+        qs = {c: nx.stream_sub(c) for c in range(N)}
+        order = list(range(N))
+        rng.shuffle(order)
+        for c in order:
+            fin, res = refdev.run_with_watchdog(lambda c=c: nx.ch_enable(c, writenow=True), 10)
+            if not fin or isinstance(res, BaseException):
+                run.violation("ch_enable(%d, writenow=True) while streaming: %r" % (c, res if fin else "did not return"),
+                              {"scenario": "enable while streaming with a delayed ACK"})
+                return
+            time.sleep(0.002)
+        settle(nx, dev)
+        for c in range(N):
+            got = []
+            while True:
+                try:
+                    got.append([s.data[0] for s in qs[c].get_nowait()])
+                except queue.Empty:
+                    break
+            run.count("enable-while-streaming", ("ews", c, len(got)), nontrivial=bool(got))
+            if got != dev.sent.get(c, []):
+                run.violation("channel %d enabled while streaming (ACK after the first samples): the subscriber got %r, "
+                              "the device sent %r since it applied the request" % (c, got[:4], dev.sent.get(c, [])[:4]),
+                              {"scenario": "enable while streaming with a delayed ACK", "channel": c})
+                return
+    finally:
+        sys.setswitchinterval(old)
+        teardown(nx)
+
+
 def main(run):
     run.regen()
     run.prove()
@@ -221,9 +285,13 @@ def main(run):
                 concurrent(run, rng)
                 if run.violations:
                     break
+            for _ in range(2 if not run.thorough else 12):
+                if run.violations:
+                    break
+                enable_while_streaming(run, rng)
     else:
         run.proof_ok = False
     return run.finish(rule=RULE, assumptions=[
         "queue.Queue is FIFO and put/get are atomic (primitives); 'eventually' is proved as termination of drain under "
         "fairness of the two library threads, the OS scheduler's fairness is assumed",
-        "enable changes while a stream runs belong to C07/C12; here the enabled set is fixed while frames flow"])
+        "enable changes while a stream runs: one scenario (enable with immediate write, samples before the delayed ACK); the rest belongs to C07/C12"])
